@@ -62,6 +62,7 @@ fn main() {
         "C13" => props::c13::run(&args, &mut acc),
         "C14" => props::c14::run(&args, &mut acc),
         "C16" => props::c16::run(&args, &mut acc),
+        "C17" => props::c17::run(&args, &mut acc),
         "C20" => props::c20::run(&args, &mut acc),
         p => { eprintln!("unknown property {p}"); std::process::exit(2) }
     }
